@@ -23,7 +23,7 @@ func main() {
 	run := kit.Start("C17", rule)
 	defer run.Finish()
 	const alphabet = "/.a%"
-	maxLen := run.Pick(8, 10)
+	maxLen := run.Pick(9, 11)
 	one(run, "")
 	var prefixes []string
 	for i := 0; i < 4; i++ {
